@@ -49,7 +49,21 @@ def snapshot():
             if n.startswith('__'):
                 continue
             import types
-            if isinstance(v, (types.ModuleType, types.FunctionType, type)):
+            if isinstance(v, types.FunctionType):
+                # default arguments are created once: a mutable default that a
+                # call changes outlives the call like a module-level object
+                if v.__module__ == mn and (v.__defaults__ or v.__kwdefaults__):
+                    snap[mn + '.' + n + '.__defaults__'] = freeze(
+                        (v.__defaults__, v.__kwdefaults__))
+                continue
+            if isinstance(v, type):
+                if v.__module__ == mn:
+                    for fn, f in list(vars(v).items()):
+                        if isinstance(f, types.FunctionType) and (f.__defaults__ or f.__kwdefaults__):
+                            snap['%s.%s.%s.__defaults__' % (mn, n, fn)] = freeze(
+                                (f.__defaults__, f.__kwdefaults__))
+                continue
+            if isinstance(v, types.ModuleType):
                 continue
             snap[mn + '.' + n] = freeze(v)
     return snap
